@@ -27,6 +27,7 @@ var (
 	mu      sync.Mutex
 	cond    = sync.NewCond(&mu)
 	active  bool
+	enabled bool // inside the SchedBegin..SchedEnd window
 	free    bool // schedule exhausted: everybody runs freely
 	sched   []Ev
 	head    int
@@ -60,6 +61,7 @@ func Start(s []Ev) {
 	sched = s
 	head = 0
 	active = len(s) > 0
+	enabled = false
 	free = false
 	tids = map[int64]int{goid(): 0}
 	nextTID = 1
@@ -71,6 +73,14 @@ func Start(s []Ev) {
 }
 
 func Active() bool { return active }
+
+// Enable switches schedule enforcement on/off (thread numbering continues regardless).
+func Enable(on bool) {
+	mu.Lock()
+	enabled = on
+	cond.Broadcast()
+	mu.Unlock()
+}
 
 // fireTimersLocked performs timer-firing events at the head of the schedule.
 func fireTimersLocked() {
@@ -104,7 +114,7 @@ func Point(kind, pos string) {
 	}
 	mu.Lock()
 	defer mu.Unlock()
-	if free {
+	if free || !enabled {
 		return
 	}
 	me, ok := tids[goid()]
@@ -113,7 +123,7 @@ func Point(kind, pos string) {
 	}
 	for {
 		fireTimersLocked()
-		if free {
+		if free || !enabled {
 			return
 		}
 		if sched[head].T == me {
